@@ -10,6 +10,7 @@ Streams (every case = one real constructor call; observation = accepted + model_
   multi      2-4 fields at once (cross-field validators), mostly in developer mode
   names      DailyModel(model=<spelling variants>)
   stored     build -> to_dict / to_json -> from_json : recorded settings == built settings, reload
+  hourly_stored  the same for HourlyModel, with real fits (oracle only)
   oracle     inputs outside the model's alphabet (numeric strings, tuples, NaN/inf): property oracle only
 The oracle is the statement, literally, evaluated on what the implementation did, against /verif/approved_settings.json."""
 import contextlib
@@ -908,6 +909,46 @@ def oracle_stored(case, obs):
     return fails
 
 
+HOURLY_STORED_DOCS = [None, {"cvrmse_threshold": 2.5, "Elasticnet": {"ALPHA": 0.5}}, {"train_features": ["temperature"], "seed": 7},
+                      {"temperature_bin": {"bin_width": 8}, "scaling_method": " RobustScaler "},
+                      {"temporal_cluster": {"recluster_count": 2}, "min_daily_training_hours": 10}]
+
+
+def hourly_stored(run, impl):
+    """real hourly fits (about 0.5 s each): the settings a fitted HourlyModel records are the ones it holds, and
+    from_json gives them back (the model does not cover fit-time defaulting of train_features: oracle only)"""
+    import random
+    import fitlib
+    data = fitlib.hourly_baseline(fitlib.hourly_frame(random.Random(run.seed), ndays=120))
+    docs = HOURLY_STORED_DOCS[:run.n(3, len(HOURLY_STORED_DOCS))]
+    for doc in docs:
+        case = {"stream": "hourly_stored", "ctor": {"c": "HourlyModel"},
+                "input": {"kind": "none"} if doc is None else {"kind": "dict", "doc": doc}, "meta": {"claim": None}}
+        run.count(vlib.sha(["hourly_stored", doc]), True)
+        run.dist("stream", "hourly_stored")
+        try:
+            with contextlib.redirect_stdout(io.StringIO()):
+                m = impl.HourlyModel() if doc is None else impl.HourlyModel(settings=doc)
+                m.fit(data, ignore_disqualification=True)
+                held = canon(m.settings.model_dump())
+                rec = canon(m.to_dict()["settings"])
+                m2 = impl.HourlyModel.from_json(m.to_json())
+                back = canon(m2.settings.model_dump())
+        except Exception as e:
+            run.violation({"call": "HourlyModel.to_json/from_json", "broken": "store or reload failed", "raised": type(e).__name__},
+                          "C14: a fitted HourlyModel could not be stored and reloaded: %s: %s" % (type(e).__name__, str(e)[:150]),
+                          case=case, generator="c14.hourly_stored")
+            continue
+        for p_, v in pdiff(rec, held):
+            run.violation({"call": "HourlyModel.to_dict", "broken": "recorded != built", "field": ".".join(p_), "family": "hourly"},
+                          "C14: HourlyModel records %s = %r, the fitted model holds %r" % (".".join(p_), jsonable(v), jsonable(get_path(held, p_))),
+                          case=case, observation={"recorded": jsonable(rec), "held": jsonable(held)}, generator="c14.hourly_stored")
+        for p_, v in pdiff(back, held):
+            run.violation({"call": "HourlyModel.from_json", "broken": "reloaded != built", "field": ".".join(p_), "family": "hourly"},
+                          "C14: after reload %s = %r, the fitted model held %r" % (".".join(p_), jsonable(v), jsonable(get_path(held, p_))),
+                          case=case, observation={"reloaded": jsonable(back), "held": jsonable(held)}, generator="c14.hourly_stored")
+
+
 def confirm_unusable_season(impl, doc):
     """D17: the constructor accepts season names the fitting code cannot use; show that fit dies (cheap: up to the
     first component fit on a synthetic year)"""
@@ -1034,14 +1075,14 @@ def main():
                                 "/verif/approved_settings.json (frozen transcription of the approved constants and domains)",
                                 "pydantic semantics re-specified in Model/Settings.v"]
     info = None
+    translator_error = None
     try:
         info = ts.generate(run)
         run.cov["translator"] = {"classes": {n: [f["name"] for f in c["fields"]] for n, c in info["classes"].items()},
                                  "validators": {n: [v["py"] for v in c["validators"]] for n, c in info["classes"].items()}}
     except Exception as e:   # fail-closed: a source the translator does not understand is a broken tie
-        run.proof_ok = False
-        run.proof_log += "translator failed: %s: %s" % (type(e).__name__, e)
-        run.log("TRANSLATOR FAILED: %s: %s" % (type(e).__name__, e))
+        translator_error = "%s: %s" % (type(e).__name__, e)
+        run.log("TRANSLATOR FAILED: " + translator_error)
     ap = Approved(ts.load_approved())
     words = list(ts.TOP_CLASSES) + NESTED_CLASSES
     for rows in ap.rows.values():
@@ -1050,8 +1091,15 @@ def main():
             words += [x for x in ([r["default"]] if isinstance(r["default"], str) else
                                   r["default"] if isinstance(r["default"], list) else []) if isinstance(x, str)]
     set_shared(words + ["developer_mode", "silent_developer_mode", "current", "legacy"])
-    if info is not None:
-        run.check_proofs("Properties/C14.v", ["Proofs/SettingsProofs.v", "Proofs/SettingsGenProofs.v"], generated=["Generated/SettingsGen.v"])
+    # the theorems are re-checked in any case; when the translator failed they can only be checked against the trees of
+    # the last successful translation, the tie is broken and the run cannot pass (said so in the evidence)
+    run.check_proofs("Properties/C14.v", ["Proofs/SettingsProofs.v", "Proofs/SettingsGenProofs.v"], generated=["Generated/SettingsGen.v"])
+    if translator_error is not None:
+        run.proof_ok = False
+        run.proof_log += "\ntranslator failed (broken tie): " + translator_error
+        run.cov["translator"] = {"failed": translator_error,
+                                 "note": "theorems re-checked against the previously generated trees only; correspondence not run"}
+    else:
         run.ensure_models(["Model/SettingsRun.v", "Model/CasesLib.v", "Generated/SettingsGen.v"])
     impl = Impl()
     defaults = {}
@@ -1085,6 +1133,8 @@ def main():
     if info is not None and not run.replay:
         check_default_dumps(run, defaults)
     process(run, impl, ap, cases, defaults)
+    if not run.replay:
+        hourly_stored(run, impl)
     # D17 (season names the fit cannot use): confirm on the real fitting code that the accepted settings are unusable
     if not run.replay:
         obs, _ = run_impl(impl, {"c": "DailyModel", "model": "current"}, {"kind": "dict", "doc": D17_DOC})
